@@ -43,3 +43,5 @@ def run(ctx):
     # "no deleted item is returned", "results come from the index as built": the forest and staleness premises
     import premises
     premises.forest(ctx)
+    import rules as _rules
+    ctx.floor('R-SETTER', 'option setters', _rules.r_setters(ctx, ('reader::QueryBuilder',)), 3)
